@@ -1,7 +1,7 @@
 """Helpers shared by the project-history checks (C02, C05-C08, C15-C18)."""
 
 from . import model, simsched
-from .runner import HarnessError
+from .runner import HarnessError, SubjectFailure
 
 VEC_STATES = ("unknown", "submitted", "running", "completed", "failed", "cancelled")
 FAIL_KINDS = ("exit", "timeout", "oom", "node_fail")
@@ -77,7 +77,7 @@ def prepopulate(proj, R, vector, fail_kinds=None):
     proj.set_files(missing)
     r = proj.gwf(["run"])
     if r.code != 0:
-        raise HarnessError("pre-population run failed: " + r.brief())
+        raise SubjectFailure("pre-population run failed: " + r.brief())
     jobs = {}
     for t in R.targets:
         j = sim.latest(t.name)
@@ -194,7 +194,7 @@ class Session:
     def set_hashing(self, on):
         r = self.proj.gwf(["config", "set", "use_spec_hashes", "true" if on else "false"])
         if r.code != 0:
-            raise HarnessError("config set failed: " + r.brief())
+            raise SubjectFailure("config set failed: " + r.brief())
         self.hashing = on
         return r
 
@@ -222,6 +222,6 @@ class Session:
             else:
                 self.complete(j)
         else:
-            raise HarnessError("drain did not terminate")
+            raise SubjectFailure("scheduler drain did not terminate")
         stuck = [j for j in self.sim.submissions() if j.state == simsched.PENDING]
         return stuck
